@@ -705,13 +705,11 @@ ndsize_t RangeDimension::indexOf(const double position, bool less_or_equal) cons
 
 
 pair<ndsize_t, ndsize_t> RangeDimension::indexOf(const double start, const double end) const {
-    vector<double> ticks = this->ticks();
-    boost::optional<ndsize_t> si = getIndex(start, ticks, PositionMatch::GreaterOrEqual);
-    boost::optional<ndsize_t> ei = getIndex(end, ticks, PositionMatch::LessOrEqual);
-    if (!ei || !si) {
+    boost::optional<std::pair<ndsize_t, ndsize_t>> range = indexOf(start, end, this->ticks(), RangeMatch::Inclusive);
+    if (!range) {
         throw nix::OutOfBounds("RangeDimension::indexOf: start or end of range are out of Bounds!");
     }
-    return std::pair<ndsize_t, ndsize_t>(*si, *ei);
+    return *range;
 }
 
 
